@@ -18,7 +18,7 @@ CHECK = {
     "harness": ["actor/zz_verif_c33.go"],
     "entries": [
         {"fn": P + "vC33_dedup"},
-        {"fn": P + "vC33_batches", "cases": {"actors": [0, 2, 3], "grains": [0, 1, 3]}, "cover_optional": ("some-sent-some-unsent",)},
+        {"fn": P + "vC33_batches", "cases": {"actors": [0, 2, 3], "grains": [0, 1, 3], "sent": [0, 1, 3]}, "cover_optional": ("some-sent-some-unsent",)},
         {"fn": P + "vC33_relocator4", "tiers": ("quick",), "replay": "model-only", "opts": {"substitute": RELOCATOR_SUBST, "stub": [M + "supervisor.NewSupervisor"]}},
         {"fn": P + "vC33_relocator5", "tiers": ("thorough",), "replay": "model-only", "opts": {"substitute": RELOCATOR_SUBST, "stub": [M + "supervisor.NewSupervisor"]}},
         {"fn": P + "vC33_share", "replay": "model-only", "opts": {"substitute": SHARE_SUBST}, "cases": {"actors": [0, 1, 2], "grains": [0, 1, 2]}},
